@@ -1,8 +1,12 @@
 package main
 
 import (
+	"encoding/json"
 	"fmt"
 	"os"
+	"runtime/debug"
+	"runtime/pprof"
+	"strings"
 )
 
 func main() {
@@ -11,11 +15,48 @@ func main() {
 		os.Exit(2)
 	}
 	applyGates()
+	// a panic that escapes a recorder: if it was raised inside the library it is a behaviour of the real code (reported as
+	// ENGINE-PANIC, exit 3, turned into a violation by the check), otherwise it is the harness' own fault (exit 2)
+	defer func() {
+		if p := recover(); p != nil {
+			stack := string(debug.Stack())
+			inEngine, afterPanic := false, false
+			for _, l := range strings.Split(stack, "\n") {
+				if strings.HasPrefix(l, "panic(") {
+					afterPanic = true
+					continue
+				}
+				if afterPanic && !strings.HasPrefix(l, "\t") && !strings.HasPrefix(l, "runtime.") && l != "" {
+					inEngine = strings.HasPrefix(l, "github.com/dlclark/regexp2/")
+					break
+				}
+			}
+			if len(stack) > 3000 {
+				stack = stack[:3000]
+			}
+			b, _ := json.Marshal(map[string]any{"rule": "engine.panic", "pattern": lastPattern, "options": lastOptions, "panic": fmt.Sprint(p), "command": os.Args[1], "stack": stack})
+			if inEngine {
+				fmt.Fprintln(os.Stderr, "ENGINE-PANIC "+string(b))
+				os.Exit(3)
+			}
+			fmt.Fprintln(os.Stderr, "harness panic:", p, "\n"+stack)
+			os.Exit(2)
+		}
+	}()
 	switch os.Args[1] {
 	case "gen-unicode":
 		genUnicode(os.Stdout)
 	default:
 		if f, ok := commands[os.Args[1]]; ok {
+			if pf := os.Getenv("VERIF_PROF"); pf != "" { // CPU profile of the harness itself (development aid)
+				if w, err := os.Create(pf); err == nil {
+					pprof.StartCPUProfile(w)
+					rc := f(os.Args[2:])
+					pprof.StopCPUProfile()
+					w.Close()
+					os.Exit(rc)
+				}
+			}
 			os.Exit(f(os.Args[2:]))
 		}
 		fmt.Fprintln(os.Stderr, "unknown command", os.Args[1])
